@@ -64,6 +64,8 @@ func runWriterOps(c *lib.Ctx, ops []lib.SOp, w redact.SafeWriter, wr io.Writer) 
 			w.Print(c.Values(op.Ts)...)
 		case "Printf":
 			w.Printf(string(c.Subst(op.F)), c.Values(op.Ts)...)
+		case "JoinTo":
+			redact.JoinTo(w, redact.RedactableString(c.Subst(op.B)), c.Value(op.Ts[0]))
 		default:
 			panic("writer op " + op.O)
 		}
@@ -132,6 +134,9 @@ func denoteWriterOps(c *lib.Ctx, h []lib.SOp) (strip, vis []byte, ok bool) {
 			if !printfStyle && i > 0 && !isString && !prevString {
 				add([]byte{' '}, true, true)
 			}
+			if t.K == "nil" {
+				safe = true // <nil>, in the clear
+			}
 			txt := []byte(fmt.Sprint(c.Value(inner)))
 			add(txt, safe, utf8.Valid(txt))
 			prevString = isString
@@ -165,6 +170,22 @@ func denoteWriterOps(c *lib.Ctx, h []lib.SOp) (strip, vis []byte, ok bool) {
 			add([]byte(fmt.Sprint(c.Value(op.Ts[0]))), true, true)
 		case "Print":
 			args(op.Ts, false)
+		case "JoinTo":
+			// the statement of JoinTo: the elements of a slice printed one by one, the delimiter (pre-redacted:
+			// passes through as it is) between them; any other operand printed as it is
+			t := op.Ts[0]
+			if t.K == "slice" || t.K == "tslice" {
+				d := c.Subst(op.B)
+				for i, x := range t.Xs {
+					if i > 0 {
+						strip = append(strip, lib.Strip(d)...)
+						vis = append(vis, lib.DeleteEnvelopes(d)...)
+					}
+					args([]*lib.Term{x}, false)
+				}
+			} else {
+				args(op.Ts, false)
+			}
 		case "Printf":
 			// formats of the op sets: literal bytes and %v directives only
 			f := c.Subst(op.F)
@@ -236,6 +257,8 @@ func opsString(h []lib.SOp) string {
 			fmt.Fprintf(&sb, "%s(%#x)", op.O, op.N)
 		case "Print", "Printf":
 			fmt.Fprintf(&sb, "%s(%v %s)", op.O, op.F, termsString(op.Ts))
+		case "JoinTo":
+			fmt.Fprintf(&sb, "JoinTo(%v, %s)", op.B, termsString(op.Ts))
 		default:
 			fmt.Fprintf(&sb, "%s(%v)", op.O, op.B)
 		}
